@@ -6,13 +6,14 @@
 #ifdef __cplusplus
 extern "C" {
 #endif
-enum alw_kind { ALW_MALLOC, ALW_MMAP, ALW_MREMAP, ALW_MUNMAP, ALW_OPEN, ALW_FSTAT, ALW_READ, ALW_FOPEN, ALW_FWRITE, ALW_FCLOSE, ALW_NKINDS };
+enum alw_kind { ALW_MALLOC, ALW_MMAP, ALW_MREMAP, ALW_MUNMAP, ALW_OPEN, ALW_FSTAT, ALW_READ, ALW_FOPEN, ALW_FWRITE, ALW_FCLOSE, ALW_WRITE, ALW_CALLOC, ALW_REALLOC, ALW_FFLUSH, ALW_FDOPEN, ALW_FTRUNCATE, ALW_NKINDS };
 struct alw_ctl {
   int armed;          /* count and possibly fail intercepted calls */
   long counter;       /* intercepted calls since arming */
   long fail_at;       /* 1-based index of the call to fail, 0 = none */
   long fail_at2;      /* optional second failing call */
   int log_n; unsigned char log[4096]; /* kinds of the intercepted calls, in order */
+  int guard_code;     /* reserve PROT_NONE pages behind the library-managed (PROT_EXEC) code buffer */
   int guard_files;    /* place the bytes read from a file / mapped from a file directly in front of a PROT_NONE page */
   long failed_index; int failed_kind; /* what was failed */
 };
